@@ -94,7 +94,10 @@ class C11(Property):
             for dim in (1, 2, 3):
                 a = cls(np.zeros(dim), 1.0) if name == "SphericalDroplet" else cls(np.zeros(dim), 1.0, 0.5)
                 out = np.record(np.zeros_like(a.data))
-                fn(a.data, a.copy().data, out)
+                try:  # only to fill the JIT cache; a failure here shows up in the judged cases
+                    fn(a.data, a.copy().data, out)
+                except Exception:  # noqa: BLE001
+                    pass
 
     def _make(self, cls, d):
         if "interface_width" in d:
